@@ -558,6 +558,9 @@ func c05ProxyGen(rt *rapid.T) c05ProxyCase {
 			Accept: rapid.SampledFrom([]int{0, 1, -1, 100}).Draw(rt, "wf.accept"),
 			Err:    rapid.SampledFrom(c05WriteErrs).Draw(rt, "wf.err"),
 		})
+		if f := &s.WF[len(s.WF)-1]; f.Err == "" && rapid.Bool().Draw(rt, "wf.stuck") {
+			f.Then = "zero" // every later Write returns (0, nil)
+		}
 	}
 	if rapid.IntRange(0, 5).Draw(rt, "hasdf") == 0 {
 		s.DF = append(s.DF, c05DF{Dir: -1, Call: rapid.IntRange(0, 8).Draw(rt, "df.call"), Err: "eio"})
@@ -573,7 +576,7 @@ func c05ProxyGen(rt *rapid.T) c05ProxyCase {
 }
 
 func TestVerif_C05_proxy(t *testing.T) {
-	rec := vh.NewRec("C05", "proxy", "rapid-drawn tunnels through Proxy(): scripted client connection (0-5 upload steps: chunks of 1 B .. 70000 B or, with probability 1/6, a zero-length read without error; optional write fault / SetDeadline fault / Close error / lingering Close of 15-40 ms; last chunk optionally returned together with EOF or an error) x real loopback TCP covert {sinks the upload until the station closes, replies and closes with FIN, replies and resets with SetLinger(0), refuses the connection} with 0-3 reply writes of 1 B .. 70000 B x registration {without proxy_header flag (2/3), with the flag and an ip:port client address (PROXY line sent first), with the flag and a client RemoteAddr that is not host:port (header cannot be sent, Proxy gives up)}; the session gauge is compared before / after for every outcome; non-trivial = an injected fault other than a plain EOF alone was hit, or the covert reset / refused; distinct by case")
+	rec := vh.NewRec("C05", "proxy", "rapid-drawn tunnels through Proxy(): scripted client connection (0-5 upload steps: chunks of 1 B .. 70000 B or, with probability 1/6, a zero-length read without error; optional write fault (also: short with nil error and then (0, nil) from every later Write) / SetDeadline fault / Close error / lingering Close of 15-40 ms; last chunk optionally returned together with EOF or an error) x real loopback TCP covert {sinks the upload until the station closes, replies and closes with FIN, replies and resets with SetLinger(0), refuses the connection} with 0-3 reply writes of 1 B .. 70000 B x registration {without proxy_header flag (2/3), with the flag and an ip:port client address (PROXY line sent first), with the flag and a client RemoteAddr that is not host:port (header cannot be sent, Proxy gives up)}; the session gauge is compared before / after for every outcome; non-trivial = an injected fault other than a plain EOF alone was hit, or the covert reset / refused; distinct by case")
 	defer rec.Flush()
 	rec.Require("mode:sink", "mode:reply-fin", "mode:reply-rst", "mode:refuse", "up:complete-demanded", "down:complete-demanded", "down-ends-first", "header:ok", "header:bad-remote", "header:send-failed", "close:sync-attributed", "read:data+eof", "read:zero-length", "close:slow", "write:short")
 	c05QuietStats(t)
